@@ -137,6 +137,10 @@ async def run_routes_and_decimals(grid, extra_random):
                          lambda op=op: spot_requests.StopLimitOrder(op, pair, amount, price, price).create_order(bapi.spot_account)),
                         ("binance_spot", "OCO", side, {"quantity": amount, "price": price, "stopPrice": price, "stopLimitPrice": price},
                          lambda op=op: spot_requests.OCOOrder(op, pair, amount, price, price, stop_limit_price=price).create_order(bapi.spot_account)),
+                        ("binance_spot", "OCO", side, {"quantity": amount, "price": price, "stopPrice": price},
+                         lambda op=op: spot_requests.OCOOrder(op, pair, amount, price, price).create_order(bapi.spot_account)),
+                        ("binance_margin", "OCO", side, {"quantity": amount, "price": price, "stopPrice": price, "stopLimitPrice": price},
+                         lambda op=op: margin_requests.OCOOrder(op, pair, amount, price, price, stop_limit_price=price).create_order(bapi.isolated_margin_account)),
                         ("binance_margin", "MARKET", side, {"quantity": amount}, lambda op=op: margin_requests.MarketOrder(op, pair, amount=amount).create_order(bapi.cross_margin_account)),
                         ("binance_margin", "LIMIT", side, {"quantity": amount, "price": price}, lambda op=op: margin_requests.LimitOrder(op, pair, amount, price).create_order(bapi.isolated_margin_account)),
                         ("binance_margin", "STOP_LOSS_LIMIT", side, {"quantity": amount, "price": price, "stopPrice": price},
@@ -181,7 +185,8 @@ async def run_routes_and_decimals(grid, extra_random):
                                      "action": got["path"].split("/")[3] if exchange == "bitstamp" and got["path"].count("/") > 3 else "",
                                      "lpair": "btcusdt", "upair": "BTCUSDT", "wire_type": typ,
                                      "got_path": got["path"], "got_symbol": p.get("symbol", ""), "got_side": p.get("side", ""),
-                                     "got_type": p.get("type", typ if typ == "OCO" else ""), "unexpected": unexpected, "err": err})
+                                     "got_type": p.get("type", typ if typ == "OCO" else ""), "unexpected": unexpected, "err": err,
+                                     "given": sorted(fields), "got_names": sorted(p)})
     finally:
         await srv.stop()
     return recs
@@ -511,6 +516,9 @@ def check(rep: Report, tier: str, seed: int, prop: str = None):
                 # transmitted next must be signed afresh
                 for ex in ("binance", "bitstamp"):
                     cases.append({"exchange": ex, "cid": "lost-" + ex, "amount": "2", "price": "3", "drop": 1, "extra": {}})
+                # concurrent requests (asyncio.gather) of every entry point: nonces stay unique, signatures valid
+                for ex in ("binance", "bitstamp"):
+                    cases.append({"exchange": ex, "cid": "burst-" + ex, "amount": "2", "price": "3", "burst": 8, "extra": {}})
                 recs = loop.run_until_complete(sig_impl.run_batch(cases))
                 seen = set()
                 for r in recs:
